@@ -272,7 +272,7 @@ fn stub_parse_f64(_s: &str) -> Result<f64, core::num::ParseFloatError> {
     Ok(x)
 }
 
-// @harness id=c20_json_number_5 props=C20,C06,C01 tier=thorough cap=2400
+// @harness id=c20_json_number_5 props=C20,C06,C01 tier=thorough cap=2400 mem=40
 // @desc parse_json::Lexer::lex_number on every ASCII string of 5 bytes: the accepted prefix is exactly the longest RFC 8259 section 6 number token, malformed numbers (-, leading zeros incl. after a minus sign, missing fraction or exponent digits) are errors, and Ok(Some(x)) implies x is finite
 // @bound 5 arbitrary ASCII bytes; the decimal-to-double conversion (str::parse::<f64>) is stubbed by an arbitrary non-NaN double
 // @funcs parse_json::Lexer::lex_number, parse_json::Lexer::eat_digit_0_9, parse_json::Lexer::eat_digit_1_9
